@@ -22,10 +22,11 @@ RULE = ("single-language sets of 1-4 cues with distinct increasing times; each c
         'breaks, and a writer object that has written another set before. '
         "A line may also be cut into 2-3 adjacent text nodes at any character (also inside a "
         "delimiter such as --> or &amp;), and a caption may begin or end with 1-2 BREAK nodes. "
-        " For WebVTT also '-->' split over two text nodes with a tag-less style node between them or in a layout group that is not the last; for the legacy / single / SRT writers a caption may occur twice (same times, same text) and the merged cue must hold the lines of both.")
+        " For WebVTT also '-->' split over two text nodes with a tag-less style node between them or in a layout group that is not the last; for the legacy / single / SRT writers a caption may occur twice (same times, same text) and the merged cue must hold the lines of both. A line may have its first or second part inside a style span (italics / bold / underline / colour) with the blank between the parts on either side of the span edge.")
 ASSUMPTIONS = [
-    "a line split into several text nodes is compared with all whitespace removed (writers "
-    "differ, legitimately, in whether they join text nodes with a space)",
+    "a line split into several text nodes may gain white space where two nodes meet (writers "
+    "differ, legitimately, in whether they join text nodes with a space); every authored blank "
+    "must still be white space in the output, also at the edge of a node or of a style span",
     "printable = str.isprintable(); the only space separator generated is U+0020",
 ]
 
@@ -86,6 +87,24 @@ def case_strategy(tier):
                                                 {"t": right, "layout": lay}, {"s": False, "c": st_c, "layout": lay}]
                 c["lines"][0] = "wait --> now"
                 c["multi"] = True
+        if draw(st.integers(0, 5)) == 0:
+            # part of a line inside a style span, the blank between two words sitting at the
+            # edge of the styled text (inside or outside the span)
+            c = s["langs"][0]["cues"][draw(st.integers(0, len(s["langs"][0]["cues"]) - 1))]
+            ti = [k for k, n in enumerate(c["nodes"]) if "t" in n]
+            if ti and c["lines"] and c["nodes"][ti[0]]["t"] == c["lines"][0] and " " in c["lines"][0]:
+                ln_ = c["lines"][0]
+                k = ln_.index(" ")
+                lay = c["nodes"][ti[0]].get("layout")
+                st_c = draw(st.sampled_from([{"italics": True}, {"bold": True}, {"underline": True},
+                                             {"color": "red"}, {"italics": True, "color": "blue"}]))
+                a, b = draw(st.sampled_from([(ln_[:k + 1], ln_[k + 1:]), (ln_[:k], ln_[k:])]))
+                S, E = {"s": True, "c": st_c, "layout": lay}, {"s": False, "c": st_c, "layout": lay}
+                ta, tb = {"t": a, "layout": lay}, {"t": b, "layout": lay}
+                shape = draw(st.sampled_from(["first", "second"]))
+                c["nodes"][ti[0]:ti[0] + 1] = [S, ta, E, tb] if shape == "first" else [ta, S, tb, E]
+                c["multi"] = True
+                c["styled"] = True
         if w in ("dfxp-legacy", "dfxp-single", "srt") and draw(st.integers(0, 5)) == 0:
             # the same caption twice (same times, same text): writers that merge concurrent
             # captions join them into one cue holding the lines of both
@@ -119,6 +138,44 @@ def case_strategy(tier):
 
 def _squash(s):
     return "".join(s.split())
+
+
+def _line_pieces(nodes):
+    """text pieces of each visible line of a cue, in order (style nodes carry no text)"""
+    lines, cur = [], []
+    for n in nodes:
+        if "br" in n:
+            lines.append(cur)
+            cur = []
+        elif "t" in n:
+            cur.append(n["t"])
+    lines.append(cur)
+    return [ps for ps in lines if "".join(ps).replace("\u00a0", " ").strip()]
+
+
+def _blanks_kept(pieces, got):
+    """got equals the concatenated pieces where every authored blank is still white space; at
+    a seam between two text nodes white space may be added but never removed"""
+    import re
+    full = "".join(pieces).replace("\u00a0", " ")
+    seams, k = set(), 0
+    for p_ in pieces[:-1]:
+        k += len(p_)
+        seams.add(k)
+    toks = []
+    for j_, ch in enumerate(full):
+        if ch.isspace():
+            if not toks or toks[-1] != r"\s+":
+                toks.append(r"\s+")
+            continue
+        if j_ in seams and toks and toks[-1] != r"\s+":
+            toks.append(r"\s*")
+        toks.append(re.escape(ch))
+    while toks and toks[0] == r"\s+":
+        toks.pop(0)
+    while toks and toks[-1] == r"\s+":
+        toks.pop()
+    return re.fullmatch(r"\s*" + "".join(toks) + r"\s*", got.replace("\u00a0", " ")) is not None
 
 
 def extract(w, out):
@@ -194,6 +251,13 @@ def check_case(case, rec):
         e = [x.strip() for x in c["lines"]]
         if c["multi"]:
             ok = [_squash(x) for x in g] == [_squash(x) for x in e]
+            pcs = _line_pieces(c["nodes"])
+            if ok and not case.get("dups") and len(pcs) == len(g):
+                # white space may be added where two text nodes meet, but an authored blank
+                # is never lost (also where it sits at the edge of a node)
+                for ps, x in zip(pcs, g):
+                    require(_blanks_kept(ps, x),
+                            lambda: f"{w}: cue {i}: an authored blank is missing in {x!r}, text nodes {ps!r}; output: {out[:600]!r}")
         else:
             ok = g == e
         require(ok, lambda: f"{w}: cue {i} lines {g!r}, authored {e!r}; output: {out[:600]!r}")
@@ -206,6 +270,8 @@ def check_case(case, rec):
         rec.label("split-nodes")
     if any(c.get("blank_nodes") for c in cues):
         rec.label("blank-text-node-lines")
+    if any(c.get("styled") for c in cues):
+        rec.label("blank-at-style-edge")
     if any(c.get("layouts") for c in cues):
         rec.label("per-line-layouts")
 
